@@ -36,6 +36,9 @@ pub struct Row {
     pub n_values: usize,
     /// does the setter accept "clear" (Option::None / empty)?  Then value index n_values means clear.
     pub has_clear: bool,
+    /// prior states (indices of `prior_doc`) that cannot exist for this view, e.g. a copyright header
+    /// paragraph is by definition the first paragraph of a text that starts with "Format:"
+    pub skip_priors: &'static [usize],
     /// build the view over `doc_text`, call the setter with value `vi`, report
     pub run: fn(doc_text: &str, vi: usize) -> Result<Obs, String>,
     /// build the view over `doc_text` and return the Debug rendering of the getter's result
@@ -73,6 +76,9 @@ pub const N_PRIORS: usize = 6;
 
 /// The prior documents for a row; None when the variant does not apply.
 pub fn prior_doc(r: &Row, prior: usize) -> Option<String> {
+    if r.skip_priors.contains(&prior) {
+        return None;
+    }
     let f = format!("{}: {}\n", r.field, r.prior_raw);
     // a multi-line raw value is written with continuation lines
     let f = f.trim_end_matches('\n').replace('\n', "\n ") + "\n";
@@ -177,6 +183,9 @@ fn check_seq(a: &Row, b: &Row) -> Vec<Viol> {
         Ok(o) => o,
         Err(e) => return vec![viol("setter-applies", ctx(&e))],
     };
+    if o1.got != o1.want {
+        return out; // the first setter alone already fails: reported by its own Set case
+    }
     let o2 = match (b.run)(&o1.after, 0) {
         Ok(o) => o,
         Err(e) => return vec![viol("setter-applies", ctx(&format!("second setter on {:?}: {}", o1.after, e)))],
